@@ -16,7 +16,7 @@ bounded expressions), so the program stays free of undefined behaviour.
 from hypothesis import strategies as st
 
 from . import gen
-from .model import var, lit, decl, routine
+from .model import var, decl, routine
 
 FILL = 'abcdefghijklmnopqrstuvwxyz_0123456789'
 SKIP_TAGS = ('s', 'comment', 'pragma', 'raw')
